@@ -401,6 +401,35 @@ theorem c12_code_taylor_coefficients_at_zero (opa : ℝ) (hopa : opa < 1) (nSel 
   · rw [ha]; exact h1.congr_of_eventuallyEq e1
   · simp [LlhSt.evaluateCode, LlhSt.grad2Code, LlhSt.grad2, hm, hid]
 
+/-- **observation (outside C12: the Taylor statistic only asks at `ns = 0`)**: below the stability
+threshold `log_lambda_i` is continued by a parabola, whose second derivative is `−(Xᵢ/one_plus_alpha)²`,
+but `calculate_ns_grad2` still returns `−Σ nsgrad_i²`.  With `one_plus_alpha = 1/2`, one selected event
+`X = −1`, `N = 1`, at `ns = 3/4`: the coded gradient is `−4·ns` near that point (derivative `−4`), the
+object answers `−9`.  Only the 1-D Newton–Raphson maximiser uses the second derivative away from 0. -/
+theorem c12_nsgrad2_unstable_counterexample :
+    ∃ b : ℝ, ((LlhSt.fresh : LlhSt ℝ).evaluateCode (1 / 2) (3 / 4) [-1]).grad2Code 1 0 (3 / 4) = .ok b ∧
+      ¬ HasDerivAt (fun t => nsGradCode (1 / 2) 1 1 t [-1]) b (3 / 4) := by
+  have hval : ((LlhSt.fresh : LlhSt ℝ).evaluateCode (1 / 2) (3 / 4) [-1]).grad2Code 1 0 (3 / 4) = .ok (-9) := by
+    simp only [LlhSt.evaluateCode, LlhSt.grad2Code, LlhSt.grad2, nsGrad2, nsGradICode, isStable, tildeAlpha, sumF,
+      List.map_cons, List.map_nil]
+    have hc : ¬ ((1 / 2 : ℝ) - 1 < 3 / 4 * -1) := by norm_num
+    simp only [hc, decide_false, Bool.false_eq_true, if_false]
+    norm_num [TranscReal.ofI_def, TranscReal.ofN_def]
+  refine ⟨-9, hval, ?_⟩
+  intro h
+  have hev : (fun t => nsGradCode (1 / 2) 1 1 t [-1]) =ᶠ[nhds (3 / 4 : ℝ)] fun t => -4 * t := by
+    have hnear : ∀ᶠ t in nhds (3 / 4 : ℝ), (1 / 2 : ℝ) < t := lt_mem_nhds (by norm_num)
+    filter_upwards [hnear] with t ht
+    simp only [nsGradCode, nsGradICode, isStable, tildeAlpha, sumF, List.map_cons, List.map_nil]
+    have hc : ¬ ((1 / 2 : ℝ) - 1 < t * -1) := by linarith
+    simp only [hc, decide_false, Bool.false_eq_true, if_false]
+    norm_num [TranscReal.ofI_def, TranscReal.ofN_def]
+    ring
+  have hd : HasDerivAt (fun t : ℝ => -4 * t) (-4) (3 / 4) := by
+    simpa using (hasDerivAt_id (3 / 4 : ℝ)).const_mul (-4 : ℝ)
+  have := h.unique (hd.congr_of_eventuallyEq hev)
+  norm_num at this
+
 /-- the Taylor statistic on the object with `evaluate` as coded is the one of the stable-regime model -/
 theorem c12_ts_taylor_on_code (st : LlhSt ℝ) (opa : ℝ) (hopa : opa < 1) (nSel nPure : ℕ) (Xs : List ℝ) :
     tsTaylorOnCode st opa nSel nPure Xs = tsTaylorOn st (nSel + nPure) nSel Xs := by
